@@ -21,6 +21,7 @@ import itertools
 import re
 
 from .core import AnalysisError
+from .core import model_token
 from .absint import (Interp, Obj, ClassVal, AbsRaise, Unsupported, Native, Closure, DT, TD, TZ,
                      TimeVal, TypeTok, Unknown)
 
@@ -758,7 +759,7 @@ _CACHE = {}
 
 
 def report(ctx, rule, fn, laws, loc, floor):
-    key = (id(ctx.model), fn.__name__, ctx.thorough)
+    key = (model_token(ctx.model), fn.__name__, ctx.thorough)
     if key not in _CACHE:
         _CACHE[key] = fn(ctx)
     F = _CACHE[key]
